@@ -118,7 +118,190 @@ impl Leg for Mmap {
     }
 }
 
+// ---------------------------------------------------------------------------------------------
+// unchecked indexing in coverage histograms, counting partitions and k-mer vectors.
+// These legs only *execute* the kernels in the journaled child process: the shard is built with
+// debug assertions, so an index outside its buffer aborts the process ("unsafe precondition(s)
+// violated") and the runner reports the journaled case as the violation. Wrong results are the
+// business of C04/C07/C08/C12.
+
+#[derive(Clone, Debug, Serialize, Deserialize)]
+pub struct CovCase {
+    pub unit: Vec<Rec>,
+    /// every record of `unit` is written this many times into the counting input
+    pub copies: usize,
+    pub k: usize,
+    pub bin_size: usize,
+    pub bin_count: usize,
+    pub norm: bool,
+    pub threads: usize,
+}
+
+pub fn check_cov(c: &CovCase) -> Verdict {
+    let mut v = Verdict::new();
+    let dir = crate::scratch_dir();
+    let mut all: Vec<Rec> = Vec::new();
+    for i in 0..c.copies {
+        for r in &c.unit {
+            all.push(Rec { id: format!("{}_{}", r.id, i), desc: None, seq: r.seq.clone() });
+        }
+    }
+    let input = io::write_input(dir.path(), "in", &c.unit, &Container::plain_fasta());
+    let alt = io::write_input(dir.path(), "alt", &all, &Container::plain_fasta());
+    let outdir = dir.path().join("out");
+    std::fs::create_dir_all(&outdir).unwrap();
+    let edge = c.bin_size * c.bin_count;
+    v.class(if c.copies == edge { "multiplicity=size*count" } else if c.copies > edge { "multiplicity>last-bin" } else { "multiplicity<last-bin" });
+    v.class_if(c.bin_count == 1, "bins=1");
+    v.class("cov");
+    v.nontrivial = c.copies + 1 >= edge && c.unit.iter().any(|r| r.seq.0.len() >= c.k);
+    let o = super::c08::exec(&io::path_str(&input), Some(&io::path_str(&alt)), &outdir, c.k, c.bin_size, c.bin_count, c.norm, c.threads, 6.0, " ");
+    // a (checked) panic is not an unchecked access; it is left to C08/C16
+    v.class_if(o.result.is_err(), "checked-panic-ignored");
+    v
+}
+
+pub struct Cov;
+impl Leg for Cov {
+    type Case = CovCase;
+    const NAME: &'static str = "cov-bins";
+    fn strategy(_tier: Tier) -> BoxedStrategy<CovCase> {
+        (1usize..=6, 1usize..=6, prop_oneof![3 => 1usize..=10, 1 => gen::k_strategy()], any::<bool>(), gen::threads_strategy(), 0usize..8)
+            .prop_flat_map(|(bin_size, bin_count, k, norm, threads, how)| {
+                let edge = bin_size * bin_count;
+                // multiplicities around the boundary of the last bin, and far beyond it
+                let copies = match how {
+                    0 => 1,
+                    1 => edge.saturating_sub(1).max(1),
+                    2 | 3 => edge,
+                    4 => edge + 1,
+                    5 => 2 * edge,
+                    6 => 7 * edge + 3,
+                    _ => (edge / 2).max(1),
+                };
+                let p = RecParams { max_records: 3, scale: k, max_len: 60, degenerate_w: 1, bounds: [k, 0, 0], nuc_only: false };
+                gen::records(p).prop_map(move |unit| CovCase { unit, copies, k, bin_size, bin_count, norm, threads })
+            })
+            .boxed()
+    }
+    fn check(c: &CovCase) -> Verdict {
+        check_cov(c)
+    }
+}
+
+#[derive(Clone, Debug, Serialize, Deserialize)]
+pub struct CtrCase {
+    pub recs: Vec<Rec>,
+    pub k: usize,
+    pub threads: usize,
+    /// bases per chunk (small values give many chunks and many more partitions than distinct k-mers)
+    pub limit: u64,
+}
+
+pub fn check_ctr(c: &CtrCase) -> Verdict {
+    let mut v = Verdict::new();
+    let dir = crate::scratch_dir();
+    let input = io::write_input(dir.path(), "in", &c.recs, &Container::plain_fasta());
+    let outdir = dir.path().join("out");
+    std::fs::create_dir_all(&outdir).unwrap();
+    let cfg = super::c07::CtrCfg { k: c.k, threads: c.threads, mem_gb: super::c07::mem_for_limit(c.limit), acgt: false };
+    let o = super::c07::exec(&io::path_str(&input), &outdir, &cfg, &Sched::Free);
+    v.class("ctr");
+    v.class(match o.parts { 0 | 1 => "parts<=1", 2..=9 => "parts=2-9", 10..=49 => "parts=10-49", _ => "parts>=50" });
+    v.nontrivial = o.parts >= 2 && !c.recs.is_empty();
+    v.class_if(o.result.is_err(), "checked-panic-ignored");
+    v
+}
+
+pub struct Ctr;
+impl Leg for Ctr {
+    type Case = CtrCase;
+    const NAME: &'static str = "ctr-partitions";
+    fn strategy(_tier: Tier) -> BoxedStrategy<CtrCase> {
+        (gen::k_strategy(), gen::threads_strategy(), prop_oneof![1 => Just(1u64 << 40), 3 => 20u64..400, 1 => 5u64..20])
+            .prop_flat_map(|(k, threads, limit)| {
+                let p = RecParams { max_records: 12, scale: k, max_len: 80, degenerate_w: 1, bounds: [k, 0, 0], nuc_only: false };
+                gen::records(p).prop_map(move |recs| {
+                    // keep partitions x chunks (temp files) in the low hundreds
+                    let total: u64 = recs.iter().map(|r| r.seq.0.len() as u64).sum();
+                    let limit = limit.max(total / 40).max(1);
+                    CtrCase { recs, k, threads, limit }
+                })
+            })
+            .boxed()
+    }
+    fn check(c: &CtrCase) -> Verdict {
+        check_ctr(c)
+    }
+}
+
+#[derive(Clone, Debug, Serialize, Deserialize)]
+pub struct KcgrCase {
+    pub recs: Vec<Rec>,
+    pub k: usize,
+    pub norm: bool,
+    pub threads: usize,
+}
+
+pub fn check_kcgr(c: &KcgrCase) -> Verdict {
+    let mut v = Verdict::new();
+    let dir = crate::scratch_dir();
+    let input = io::write_input(dir.path(), "in", &c.recs, &Container::plain_fasta());
+    let out = dir.path().join("out.kcgr");
+    v.class("kcgr");
+    v.nontrivial = c.recs.iter().any(|r| r.seq.0.len() >= c.k);
+    let r = crate::engine::guarded(|| {
+        let mut cc = composition::oligocgr::OligoCgrComputer::new(io::path_str(&input), io::path_str(&out), c.k, 16);
+        cc.set_threads(c.threads);
+        cc.set_norm(c.norm);
+        cc.vectorise()
+    });
+    v.class_if(r.is_err(), "checked-panic-ignored");
+    v
+}
+
+pub struct Kcgr;
+impl Leg for Kcgr {
+    type Case = KcgrCase;
+    const NAME: &'static str = "kcgr-vectors";
+    fn strategy(_tier: Tier) -> BoxedStrategy<KcgrCase> {
+        (1usize..=7, any::<bool>(), gen::threads_strategy())
+            .prop_flat_map(|(k, norm, threads)| {
+                let p = RecParams { max_records: if k >= 6 { 3 } else { 10 }, scale: k, max_len: 120, degenerate_w: 1, bounds: [k, 0, 0], nuc_only: false };
+                gen::records(p).prop_map(move |recs| KcgrCase { recs, k, norm, threads })
+            })
+            .boxed()
+    }
+    fn check(c: &KcgrCase) -> Verdict {
+        check_kcgr(c)
+    }
+}
+
+/// the per-sequence oligo routine (also the landing place of `oligo_vec` fuzz artifacts)
+pub struct OligoOne;
+impl Leg for OligoOne {
+    type Case = super::c04::OneCase;
+    const NAME: &'static str = "oligo-one";
+    fn strategy(tier: Tier) -> BoxedStrategy<super::c04::OneCase> {
+        <super::c04::One as Leg>::strategy(tier)
+    }
+    fn check(c: &super::c04::OneCase) -> Verdict {
+        let mut v = super::c04::check_one(c);
+        // only the execution matters here; value mismatches belong to C04
+        v.fail = None;
+        v
+    }
+}
+
 pub fn run(ctx: &mut Ctx) {
+    let n = ctx.share(ctx.tier.pick(2_000, 40_000));
+    ctx.run_leg::<Cov>(n, true, 0);
+    let n = ctx.share(ctx.tier.pick(1_200, 20_000));
+    ctx.run_leg::<Ctr>(n, true, 0);
+    let n = ctx.share(ctx.tier.pick(1_200, 20_000));
+    ctx.run_leg::<Kcgr>(n, true, 0);
+    let n = ctx.share(ctx.tier.pick(20_000, 400_000));
+    ctx.run_leg::<OligoOne>(n, true, 0);
     let n = ctx.share(ctx.tier.pick(6_000, 100_000));
     ctx.run_leg::<Mmap>(n, true, 300);
 }
@@ -126,6 +309,10 @@ pub fn run(ctx: &mut Ctx) {
 pub fn replay(leg: &str, case: &serde_json::Value) -> Option<Result<Verdict, String>> {
     match leg {
         "mmap-writes" => Some(crate::engine::replay_leg::<Mmap>(case)),
+        "cov-bins" => Some(crate::engine::replay_leg::<Cov>(case)),
+        "ctr-partitions" => Some(crate::engine::replay_leg::<Ctr>(case)),
+        "kcgr-vectors" => Some(crate::engine::replay_leg::<Kcgr>(case)),
+        "oligo-one" => Some(crate::engine::replay_leg::<OligoOne>(case)),
         _ => None,
     }
 }
